@@ -145,7 +145,9 @@ structure NaNLaws : Prop where
 
 /-- integer → float conversion (`as f64`): monotone, exact on small integers -/
 structure OfIntLaws : Prop where
-  ofInt_mono : ∀ i j : Int, i ≤ j → (RFun.ofInt i : α) ≤ RFun.ofInt j
+  /-- stated for the 64-bit range only (every Rust integer that is ever converted): the executable carrier
+      replaces astronomically large integers (|i| ≥ 2^190, the model's panic sentinels) by a NaN -/
+  ofInt_mono : ∀ i j : Int, -(2 ^ 64 : Int) ≤ i → i ≤ j → j ≤ 2 ^ 64 → (RFun.ofInt i : α) ≤ RFun.ofInt j
   ofInt_zero : ((RFun.ofInt 0 : α) == (0.0 : α)) = true
   ofInt_one : ((RFun.ofInt 1 : α) == (1.0 : α)) = true
   /-- every 64-bit integer converts to a finite value -/
